@@ -8,6 +8,9 @@ for k in 1 2; do
   eval $(python3 - $d <<'PY'
 import json,sys,shlex
 m=json.load(open(sys.argv[1]+'/meta.json'))
+import re
+m['run']=re.sub(r'^-run[ =]+','',m['run'].strip()).strip("'\"")
+m['module_dir']=m['module_dir'].rstrip('/') or '.'
 print('DEMO_TO=%s MOD=%s PKG=%s RUN=%s' % tuple(shlex.quote(str(m[k])) for k in ('demo_copy_to','module_dir','package','run')))
 PY
 )
